@@ -116,6 +116,14 @@ Theorem C20_closed : forall resp nf nb ls pid, let st := run resp (init nf nb) l
   /\ forall ls', let st' := run resp st ls' in up st' = false /\ x_alive (px st' pid) = false.
 Proof. exact net_closed. Qed.
 
+(* the oracle's order test (greedy subsequence matching, the function check_fifo uses on what the
+   real nodes did) accepts every run of the model: it cannot raise a false alarm on
+   model-conforming behaviour *)
+Theorem C20_oracle_sound : forall resp nf nb ls pid (f : msg -> bool),
+  let st := run resp (init nf nb) ls in
+  subseqb msg_eqb (filter f (dlv st pid)) (filter f (sent st pid)) = true.
+Proof. exact oracle_fifo_sound. Qed.
+
 (* ---- statement pins ---- *)
 Check (C20_tags_fresh_proxy : forall evs st outs,
   prun pst0 evs = (st, outs) ->
@@ -187,3 +195,4 @@ Print Assumptions C20_fifo_no_gaps.
 Print Assumptions C20_mirror_lifecycle.
 Print Assumptions C20_mirror_settled.
 Print Assumptions C20_closed.
+Print Assumptions C20_oracle_sound.
